@@ -303,8 +303,8 @@ func c10Foreign(c *kit.Case) {
 	}
 	fl := kit.Pick(r, []flavour{{"R2-RC4-40", 2, 40, false, "1.3"}, {"R3-RC4-40", 3, 40, false, "1.4"}, {"R3-RC4-128", 3, 128, false, "1.4"},
 		{"R3-RC4-56", 3, 56, false, "1.4"}, {"R4-V2-128", 4, 128, false, "1.5"}, {"R4-AESV2", 4, 128, true, "1.6"}, {"R6-AESV3", 6, 256, true, "2.0"}})
-	user := kit.Pick(r, []string{"", "user", "pässwörd", strings.Repeat("u", 40)})
-	owner := kit.Pick(r, []string{"owner", "Ownér €", strings.Repeat("o", 130)})
+	user := kit.Pick(r, append([]string{"", "user", "pässwörd", strings.Repeat("u", 40)}, c10LongPasswords("c", "d")...))
+	owner := kit.Pick(r, append([]string{"owner", "Ownér €", strings.Repeat("o", 130)}, c10LongPasswords("e", "f")...))
 	perm := pdf.Perm(r.Intn(128))
 	v := pdf.V1_7
 	if fl.rev == 6 {
@@ -498,15 +498,27 @@ func c10Foreign(c *kit.Case) {
 	}
 }
 
+// c10LongPasswords have a multi-byte character across the byte limits of the
+// password preparation (127 bytes of UTF-8 for revision 6, 32 bytes of
+// PDFDocEncoding for revisions 2-4, where é and € are single bytes).
+// User and owner passwords are built from different letters: the older revisions
+// use the first 32 bytes only.
+func c10LongPasswords(a, b string) []string {
+	return []string{
+		strings.Repeat(a, 126) + "\u00e9tail", strings.Repeat(a, 125) + "\u20actail", strings.Repeat(a, 126) + "\u20ac",
+		strings.Repeat(b, 31) + "\u00e9x", strings.Repeat(b, 127) + "\u00e9",
+	}
+}
+
 func TestVerifC10(t *testing.T) {
 	r := kit.Start(t, "C10")
 	defer r.Finish()
 	versions := []pdf.Version{pdf.V1_1, pdf.V1_2, pdf.V1_3, pdf.V1_4, pdf.V1_5, pdf.V1_6, pdf.V1_7, pdf.V2_0}
 	ivs := map[string]bool{} // across the whole shard
-	pws := []string{"user", "", "pässwörd €", strings.Repeat("a", 40), "Geheim"}
+	pws := append([]string{"user", "", "pässwörd €", strings.Repeat("a", 40), "Geheim"}, c10LongPasswords("c", "d")...)
 	r.Phase("library-files", r.N(4000, 100000), func(c *kit.Case) {
 		v := versions[c.Index%len(versions)]
-		cfg := gen.CryptConfig{Version: v, UserPW: kit.Pick(c.Rng, pws), OwnerPW: kit.Pick(c.Rng, []string{"owner", "", "Ownér", strings.Repeat("o", 130)}),
+		cfg := gen.CryptConfig{Version: v, UserPW: kit.Pick(c.Rng, pws), OwnerPW: kit.Pick(c.Rng, append([]string{"owner", "", "Ownér", strings.Repeat("o", 130)}, c10LongPasswords("e", "f")...)),
 			Perm: pdf.Perm(c.Rng.Intn(128)), HumanReadable: c.Rng.Chance(1, 4), Seekable: c.Rng.Bool(), HighNumbers: c.Rng.Chance(1, 4)}
 		if cfg.UserPW == "" && cfg.OwnerPW == "" {
 			cfg.OwnerPW = "owner"
